@@ -40,6 +40,11 @@ def make_case(rng, twins_both=True):
         steps.append(['enbc'])
         steps += [['call', a] for a in args]
         steps.append(['disbc'])
+        r2 = rng.fork('again')
+        if r2.chance(1, 4):
+            # some functions are registered a second time after they ran (their code object is swapped for a padded copy), then run again
+            steps += [['add', n] for n in r2.sample(reg, r2.below(min(2, len(reg))) + 1)]
+            steps += [['enbc'], ['call', args[0]], ['disbc']]
     steps.append(['snapshot'])
     return {'prog': prog, 'steps': steps, 'mode': mode, 'registered': reg}
 
